@@ -192,14 +192,17 @@ def count_ops(sc, workdir):
     try:
         r = Runner(sc, fn, counter)
         start = counter.n
+        completed = 0
         try:
             for j, c in enumerate(sc["calls"]):
                 counter.call_index = j + 1
                 r.call(c)
+                completed = j + 1
         except Exception:
             pass          # the api trace of this history records the exception; kill points up to here
         counter.call_index = 0
         log = [x for x in counter.log if x[0] > start and x[2] > 0]
+        sc["_completed_calls"] = completed
         try:
             r.obj.close()
         except Exception:
@@ -297,6 +300,37 @@ def scenarios(ctx, workdir):
         sc = dict(level=rnd.choice(["array", "store"]), dtype="float64", row_shape=[40], bs=30, init=[1])
         sc["calls"] = valid_histories(rnd, rnd.randint(2, 5), 4, 1)
         hists.append(sc)
+    # systematic family: an unflushed append followed by EVERY sequence of up to 3 (thorough: 4) further calls over
+    # {append, read, overwrite old batch, delete last, flush}: the window in which header and data can disagree
+    alphabet = ["append", "read", "overwrite", "truncate", "flush"]
+    for L in range(1, (3 if ctx.quick else 4) + 1):
+        seqs = list(itertools.product(alphabet, repeat=L))
+        if ctx.quick and L == 3:
+            seqs = rnd.sample(seqs, 30)
+        for seq in seqs:
+            n, nextv, calls, ok = 2, 20, [["append", 9, 0]], True        # init [1], then the append
+            for op in seq:
+                if op == "append":
+                    calls.append(["append", nextv, 0])
+                    nextv += 1
+                    n += 1
+                elif op == "overwrite":
+                    if n < 1:
+                        ok = False
+                        break
+                    calls.append(["overwrite", 1, nextv])
+                    nextv += 1
+                elif op == "truncate":
+                    if n < 1:
+                        ok = False
+                        break
+                    n -= 1
+                    calls.append(["truncate", n, 0])
+                else:
+                    calls.append([op, 0, 0])
+            if ok:
+                hists.append(dict(level="array" if len(hists) % 2 else "store", dtype="float64", row_shape=[], bs=2, init=[1], calls=calls,
+                                  systematic=True))
     out = []
     for h in hists:
         out.append(dict(h, kind="api", observe="every"))
@@ -305,7 +339,7 @@ def scenarios(ctx, workdir):
         for (k, name, j) in log:
             for phase in ("before", "after"):
                 out.append(dict(h, kind="crash", kill=[k, phase], kill_call=j, kill_op=name))
-        for j in range(1, max([x[2] for x in log] + [0]) + 1):
+        for j in range(1, h.pop("_completed_calls", 0) + 1):      # a kill right after every public call that returned
             out.append(dict(h, kind="crash", kill=[j, "callend"], kill_call=j, kill_op="return"))
     return out, len(hists)
 
